@@ -27,8 +27,8 @@ CLAIMED = {
             'Decides the pivoting-required clause structurally (no elimination ratio divides by an untested, unexchanged diagonal; a running pivot maximum compared with fabs holds magnitudes only) and the buffer clause (raw column-major buffers, IPIV, WORK/LWORK, s/u/vt sizes for square and rectangular input are large enough; conversions stay in range). M M^-1 = I, Penrose conditions, eigen-equations and reconstruction are numeric and NOT decided.',
             'Trusted: clang AST; contracts.json; LAPACK writes only within its documented argument sizes (table in lsv/shapecheck.py).',
             'DESIGN.md 2/E1,E7c, 3/C12'),
-    'C14': ('shape', 'other', 'symbolic extent/index abstract interpretation (path-sensitive, polynomial shape atoms, row/slot segment heap model, three-valued obligations with shape witnesses) applied to every public container operation from an arbitrary invariant-satisfying state, plus post-invariant, lifetime, deep-copy and slot typestate rules',
-            'Discharges the history quantifier by induction: each of the ~90 container operations, from ANY argument state satisfying the container invariants, makes only in-extent accesses, uses/frees nothing after release, copies deeply and re-establishes the invariants with the updated counts; out-of-range index arguments reach an error path before any subscript. Cell values (old cells preserved, new cells zero), allocator failure and string contents are NOT decided.',
+    'C14': ('shape', 'other', 'symbolic extent/index abstract interpretation (path-sensitive, polynomial shape atoms, row/slot segment heap model, three-valued obligations with shape witnesses) applied to every public container operation from an arbitrary invariant-satisfying state, plus post-invariant, lifetime, deep-copy, slot typestate and written-cell (initialisation) rules',
+            'Discharges the history quantifier by induction: each of the ~90 container operations, from ANY argument state satisfying the container invariants, makes only in-extent accesses, uses/frees nothing after release, copies deeply and re-establishes the invariants with the updated counts; out-of-range index arguments reach an error path before any subscript. Also decides that every newly exposed cell (in storage the operation allocated) is stored to before return, so no cell below the counts is indeterminate. Which value a cell gets (old value preserved / zero), allocator failure and string contents are NOT decided.',
             'Trusted: clang AST; container invariants assumed at entry and re-proved at exit; distinct parameters do not alias; LP64. UNDECIDED obligations are counted in the evidence and never alarm.',
             'DESIGN.md 2/E1, 3/C14, Appendix C'),
     'C19': ('dims', 'other', 'units-of-measure inference: every floating expression of the spline/area code typed X^a Y^b, homogeneity constraints solved as a linear system over Q, first inconsistent expression reported',
